@@ -162,7 +162,7 @@ TLSSRC = ['harness/venv.c']
 PBWRAP = ['-Wl,--wrap=sm3_pbkdf2', '-lpthread', '-ldl', '-lm']
 PGWRAP = ['-Wl,--wrap=sm3_pbkdf2', '-Wl,--wrap=sm4_gcm_encrypt', '-lpthread', '-ldl', '-lm']
 GCMWRAP2 = ['-Wl,--wrap=sm4_gcm_encrypt', '-lpthread', '-ldl', '-lm']
-GCMWRAP = ['-Wl,--wrap=sm4_gcm_encrypt', '-Wl,--wrap=tls_record_encrypt', '-lcrypto', '-lpthread', '-ldl', '-lm']
+GCMWRAP = ['-Wl,--wrap=sm4_gcm_encrypt', '-lcrypto', '-lpthread', '-ldl', '-lm']
 
 SPECS['C06'] = {
     'level': 'fault_enumeration',
